@@ -154,17 +154,26 @@ def slice_function(root, spec):
         raise SliceError('missing file ' + spec['file'])
     raw = open(path).read()
     text = strip_comments(raw)
-    ms = list(re.finditer(spec['anchor'], text, re.S))
-    if len(ms) != 1:
-        raise SliceError('%s: anchor matched %d times in %s' % (spec['name'], len(ms), spec['file']))
-    m = ms[0]
-    b0 = text.find('{', m.end() - 1 if text[m.end()-1] == '{' else m.end())
-    if b0 < 0: raise SliceError('no body')
-    between = text[m.end():b0]
-    if spec.get('allow_between') is None and between.strip() not in ('', 'const', 'override', 'const override'):
-        raise SliceError('%s: unexpected text between anchor and body: %r' % (spec['name'], between.strip()[:60]))
-    b1 = match_brace(text, b0)
-    body = text[b0:b1+1]
+    if spec.get('region'):
+        # statement-range slice: the text captured by group 1 of the regex (must match exactly once) becomes the body of the emitted
+        # function; used for loop bodies of range-for loops over std::map that cannot be sliced as a whole function.
+        ms = list(re.finditer(spec['region'], text, re.S))
+        if len(ms) != 1:
+            raise SliceError('%s: region matched %d times in %s' % (spec['name'], len(ms), spec['file']))
+        m = ms[0]
+        body = '{\n' + m.group(1) + '\n' + spec.get('region_tail', '') + '\n}'
+    else:
+        ms = list(re.finditer(spec['anchor'], text, re.S))
+        if len(ms) != 1:
+            raise SliceError('%s: anchor matched %d times in %s' % (spec['name'], len(ms), spec['file']))
+        m = ms[0]
+        b0 = text.find('{', m.end() - 1 if text[m.end()-1] == '{' else m.end())
+        if b0 < 0: raise SliceError('no body')
+        between = text[m.end():b0]
+        if spec.get('allow_between') is None and between.strip() not in ('', 'const', 'override', 'const override'):
+            raise SliceError('%s: unexpected text between anchor and body: %r' % (spec['name'], between.strip()[:60]))
+        b1 = match_brace(text, b0)
+        body = text[b0:b1+1]
     line = text.count('\n', 0, m.start()) + 1
     fired = {}
     # R-dcheck
@@ -185,8 +194,8 @@ def slice_function(root, spec):
     if k: fired['R-trait.static_assert'] = k
     # per-function listed rewrites first (they see the original text)
     for item in spec.get('subst', []):
-        pat, rep, mn = item
-        body, k = re.subn(pat, rep, body, flags=re.S)
+        pat, rep, mn = item[0], item[1], item[2]
+        body, k = re.subn(pat, rep, body, count=(item[3] if len(item) > 3 else 0), flags=re.S)
         if k < mn:
             raise SliceError('%s: required rewrite %r fired %d < %d times' % (spec['name'], pat, k, mn))
         fired['subst:' + pat] = k
